@@ -64,3 +64,64 @@ structure WellFormed (f : File) : Prop where
 
 end Spec
 end KikiVerif
+
+namespace KikiVerif
+namespace Spec
+open Ast Text
+
+/-! ### truthful error reports (second half of C10) -/
+
+/-- top-level definitions with the positions of their names, in the order validation meets them:
+nonterminals in declaration order, then the terminal variants, then the terminal enum itself -/
+def ntDefs (f : File) : List (Str × Nat) :=
+  f.items.filterMap fun
+    | .struct s => some (s.name.name, s.name.pos)
+    | .enum e => some (e.name.name, e.name.pos)
+    | _ => none
+
+def topDefs (f : File) (t : TermEnum) : List (Str × Nat) :=
+  ntDefs f ++ t.variants.map (fun v => (v.name.name, v.name.dpos)) ++ [(t.name.name, t.name.pos)]
+
+/-- every name that must start with an upper-case letter, with the position reported for it -/
+def upperOccs (f : File) : List (Str × Nat) :=
+  f.items.flatMap fun
+    | .struct s => [(s.name.name, s.name.pos)]
+    | .enum e => (e.name.name, e.name.pos) :: e.variants.map fun v => (v.name.name, v.name.pos)
+    | .terminal t => (t.name.name, t.name.pos) :: t.variants.map fun v => (v.name.name, v.name.dpos)
+    | .start _ => []
+
+/-- identifiers used as names of named fields -/
+def fieldsetIdents : Fieldset → List Ident
+  | .named fs => fs.filterMap fun fld => match fld.name with | .id i => some i | .us _ => none
+  | _ => []
+
+def fieldIdents (f : File) : List Ident := (fieldsets f).flatMap fieldsetIdents
+
+def allSyms (f : File) : List SymId := (fieldsets f).flatMap (·.syms)
+
+/-- `l` contains `a` and later `b` -/
+def Before {α : Type} (l : List α) (a b : α) : Prop := ∃ pre mid post, l = pre ++ a :: mid ++ b :: post
+
+inductive Truthful (f : File) : KErr → Prop
+  | noStart : startDecls f = [] → Truthful f .noStartSymbol
+  | multiStart : 2 ≤ (startDecls f).length → Truthful f (.multipleStartSymbols ((startDecls f).map (·.pos)))
+  | noTerminal : termEnums f = [] → Truthful f .noTerminalEnum
+  | multiTerminal : 2 ≤ (termEnums f).length →
+      Truthful f (.multipleTerminalEnums ((termEnums f).map (·.name.pos)))
+  | notUpper (name : Str) (pos : Nat) : (name, pos) ∈ upperOccs f → ¬ UpperOk name → Truthful f (.notUppercase pos)
+  | notLower (i : Ident) : i ∈ fieldIdents f → ¬ LowerOk i.name → Truthful f (.notLowercase i.pos)
+  | nameClash (t : TermEnum) (name : Str) (p q : Nat) : termEnums f = [t] →
+      Before (topDefs f t) (name, p) (name, q) → Truthful f (.nameClash name p q)
+  | variantNameClash (e : Enum) (name : Str) (p q : Nat) : e ∈ enums f →
+      Before (e.variants.map fun v => (v.name.name, v.name.pos)) (name, p) (name, q) →
+      Truthful f (.variantNameClash name p q)
+  | variantSeqClash (e : Enum) (seq : List Sym') (p q : Nat) : e ∈ enums f →
+      Before (e.variants.map fun v => (v.fieldset.syms.map (·.toSym), v.name.pos)) (seq, p) (seq, q) →
+      Truthful f (.variantSeqClash seq p q)
+  | undefNonterminal (i : Ident) : (SymId.n i ∈ allSyms f ∨ i ∈ startDecls f) → i.name ∉ nonterminalNames f →
+      Truthful f (.undefinedNonterminal i.name i.pos)
+  | undefTerminal (t : TermEnum) (i : TermIdent) : termEnums f = [t] → SymId.t i ∈ allSyms f →
+      i.name ∉ t.variants.map (·.name.name) → Truthful f (.undefinedTerminal i.name i.dpos)
+
+end Spec
+end KikiVerif
